@@ -123,7 +123,8 @@ func (h *eventHandler) ensureDeploymentsMatchGateways(ctx context.Context, logge
 	}
 
 	for nsname := range h.provisions {
-		if _, exist := h.store.gateways[nsname]; exist {
+		// A Gateway that still exists but no longer references our GatewayClass must lose its Deployment too.
+		if gw, exist := h.store.gateways[nsname]; exist && string(gw.Spec.GatewayClassName) == h.gcName {
 			continue
 		}
 
